@@ -24,7 +24,7 @@ func (c10) Assumptions() []string {
 		"the client uses the documented loop: NewParquetReader; for r.Next() { r.Scan(&x) }; r.Error(); Next is not called again after it returned false; in half of the cases the client also calls Error() before the loop and after every row",
 		"a source that lies (wrong bytes, wrong offset from Seek without an error) is outside the property and is not simulated",
 		"reference rows = fault-free read of the same file by the same reader; files whose reference is unusable are skipped and counted",
-		"a reader that neither reports the failure nor terminates within 20x the reference's source calls counts as not reporting it (hang)",
+		"a reader that neither reports the failure nor terminates within 20x the reference's source calls plus four calls per byte of the file counts as not reporting it (hang)",
 	}
 }
 func (c10) Probes() []string {
@@ -152,7 +152,9 @@ func (p c10) Run(runseed uint64, tier string, acc *Acc) []*core.Violation {
 
 func (p c10) check(c *core.Case, f *fileWL, base *core.ReadResult, baseCalls int) (*core.Violation, *core.Source, *core.ReadResult) {
 	src := core.NewSource(f.Data, c.Frag, c.SrcFault)
-	src.MaxCalls = 20*baseCalls + 100000
+	// a reader that went astray may legitimately crawl through the rest of the file one byte per call
+	// before it gives up; only an unbounded loop is a hang
+	src.MaxCalls = 20*baseCalls + 100000 + 4*len(f.Data)
 	if c.Frag != nil {
 		src.MaxCalls = 400000 + 400*len(f.Data)
 	}
